@@ -31,6 +31,19 @@ CHECKS.update({
          "DESIGN.md §3 C16"),
 })
 
+CHECKS.update({
+ "C03": ("exploration",
+         "bounded-exhaustive enumeration of (field, boundary value, spelling, channel, codec, compression) singles and pairs on the real Mux against a client-side transcoding reference",
+         "Every URL-expressible field of ComplexRequest (all 15 scalar kinds, enum, bytes, repeated scalars, nested, oneof members, wrappers, Timestamp/Duration/FieldMask) with every boundary value and spelling is sent through every channel a rule offers (path variable, query by proto/JSON name, body in JSON/protobuf/octet-stream with and without gzip), singly and in all ordered pairs; the handler's message must proto.Equal the generated one. Texts invalid under every reading must be refused without invoking the handler.",
+         "1-wise and 2-wise coverage over boundary values, not arbitrary messages; grey spellings listed in the evidence assumptions are not demanded; protojson/proto are trusted as encoders.",
+         "DESIGN.md §3 C03"),
+ "C07": ("exploration",
+         "bounded-exhaustive enumeration of (path-bound field, rule shape, captured value, competing value, competitor channel) on the real Mux",
+         "For every path-bindable field and rule shape (no body, body '*', body on the parent / an unrelated field) every competing boundary value is delivered simultaneously through the query (proto name, JSON name, repeated, mixed with other keys), the body (JSON / protobuf) and both; whenever the handler runs, the bound field must equal the path capture.",
+         "A refusal (status >= 400, handler not run) is accepted; Go map iteration order of url.Values is not controlled (each case has a single competing key, so the verdict is order-independent).",
+         "DESIGN.md §3 C07"),
+})
+
 NOT_YET = {}
 
 def main():
